@@ -319,18 +319,44 @@ class Gridder(GeospatialGrid):
             integrated_variables_second_parts,
         )
 
+    def _dateline_crossing_latitude(
+        self, lats, lons, dateline_crossing_idx, dateline_crossing_sign
+    ):
+        """Latitude at which the straight (lat, lon) line of the crossing segment
+        meets the antimeridian; the end longitude is unwrapped to the side of the
+        start point."""
+        lat_start = lats[dateline_crossing_idx]
+        lon_start = lons[dateline_crossing_idx]
+        lat_end = lats[dateline_crossing_idx + 1]
+        if dateline_crossing_sign == -1:
+            lon_cross = np.pi
+            lon_end = lons[dateline_crossing_idx + 1] + 2 * np.pi
+        else:
+            lon_cross = -np.pi
+            lon_end = lons[dateline_crossing_idx + 1] - 2 * np.pi
+        if lon_end == lon_start:
+            # both points lie on the antimeridian itself (-pi and +pi)
+            return lat_start
+        return lat_start + (lon_cross - lon_start) / (lon_end - lon_start) * (
+            lat_end - lat_start
+        )
+
     def _calculate_segment_lengths(
         self, lats, lons, dateline_crossing_idx, dateline_crossing_sign
     ):
+        crossing_lat = self._dateline_crossing_latitude(
+            lats, lons, dateline_crossing_idx, dateline_crossing_sign
+        )
+
         first_segment_length = great_circle_distance(
             lats[dateline_crossing_idx],
             lons[dateline_crossing_idx],
-            lats[dateline_crossing_idx],
+            crossing_lat,
             np.pi if dateline_crossing_sign == -1 else -np.pi,
         )
 
         second_segment_length = great_circle_distance(
-            lats[dateline_crossing_idx],
+            crossing_lat,
             -np.pi if dateline_crossing_sign == -1 else np.pi,
             lats[dateline_crossing_idx + 1],
             lons[dateline_crossing_idx + 1],
@@ -361,7 +387,13 @@ class Gridder(GeospatialGrid):
         lats_first_part = np.concatenate(
             (
                 lats[: dateline_crossing_idx + 1],
-                np.array([lats[dateline_crossing_idx]]),
+                np.array(
+                    [
+                        self._dateline_crossing_latitude(
+                            lats, lons, dateline_crossing_idx, dateline_crossing_sign
+                        )
+                    ]
+                ),
             )
         )
         altitudes_first_part = (
@@ -442,7 +474,13 @@ class Gridder(GeospatialGrid):
 
         lats_second_part = np.concatenate(
             (
-                np.array([lats[dateline_crossing_idx]]),
+                np.array(
+                    [
+                        self._dateline_crossing_latitude(
+                            lats, lons, dateline_crossing_idx, dateline_crossing_sign
+                        )
+                    ]
+                ),
                 lats[dateline_crossing_idx + 1 :],
             )
         )
